@@ -387,6 +387,17 @@ func key(cs Case, class string) string {
 func Run(c *vk.Ctx) {
 	ks := kinds()
 	if c.Replay != "" {
+		var vc VarCase
+		c.LoadReplay(&vc)
+		if vc.Variadic {
+			f := runVariadic(vc)
+			fmt.Printf("replay variadic In kind=%s fixed=%d alts=%v call=%v\nresult: %s\n", vc.Kind, vc.Fixed, vc.Alts, vc.Call, f)
+			if f != "" {
+				c.Violate("replay", f, vc)
+			}
+			c.Finish()
+			return
+		}
 		var cs Case
 		c.LoadReplay(&cs)
 		for _, k := range ks {
@@ -470,6 +481,7 @@ func Run(c *vk.Ctx) {
 	for k, v := range perOp {
 		c.Res.Extra["n_cases_"+k] = v
 	}
+	variadicPart(c, idx)
 	c.Finish()
 }
 
